@@ -472,9 +472,16 @@ func (m Mesh) ScanPrimitivesParallelWithPoolSize(size int, f func(i int, p Primi
 		return m.ScanPrimitives(f)
 	}
 
+	totalWork := m.PrimitiveCount()
+
+	// Nothing to scan. An empty line strip even reports -1 primitives, which
+	// the range arithmetic below would turn into negative indices
+	if totalWork < 1 {
+		return m
+	}
+
 	var wg sync.WaitGroup
 
-	totalWork := m.PrimitiveCount()
 	workSize := int(math.Floor(float64(totalWork) / float64(size)))
 	for i := 0; i < size; i++ {
 		wg.Add(1)
